@@ -321,6 +321,10 @@ def r16(ctx: Ctx) -> RuleReport:
             continue
         calls = [n for n in walk_local(fi.node) if isinstance(n, ast.Call) and isinstance(n.func, ast.Attribute)
                  and n.func.attr == 'next' and _is_tokit(ctx, n.func.value, fi)]
+        # accept(<types>) looks at the lookahead itself and answers None at the end of input (R43 reads TokenIterator.accept): a token taken that way needs no peek
+        for n in walk_local(fi.node):
+            if isinstance(n, ast.Call) and isinstance(n.func, ast.Attribute) and n.func.attr == 'accept' and _is_tokit(ctx, n.func.value, fi):
+                rep.ok(f'{fi.module.name}:{fi.qualname}: {norm(n)[:60]}', fi.loc(n), 'accept() tests the lookahead before it takes the token')
         if not calls:
             continue
         n_funcs += 1
